@@ -89,14 +89,18 @@ class LoggingMatcher(difflib.SequenceMatcher):
     def ratio(self):
         r = super().ratio()
         if isinstance(self.a, str) and isinstance(self.b, str):
-            key = ('f', self.a, self.b)
-            if key not in SEEN:
-                SEEN.add(key)
-                f = Fraction(r)
-                LOG['ratio'].append([self.a, self.b, str(f.numerator), str(f.denominator)])
+            # the model asks for ratio(window, pattern); answer both argument orders independently of the
+            # order the code used (ratio() is not symmetric)
+            for x, y in ((self.a, self.b), (self.b, self.a)):
+                key = ('f', x, y)
+                if key not in SEEN:
+                    SEEN.add(key)
+                    f = Fraction(REAL_MATCHER(None, x, y).ratio())
+                    LOG['ratio'].append([x, y, str(f.numerator), str(f.denominator)])
         return r
 
 
+REAL_MATCHER = difflib.SequenceMatcher
 ep.re = ReProxy()
 difflib.SequenceMatcher = LoggingMatcher
 
@@ -117,7 +121,31 @@ def build_env(env):
     return txn, variables, ds
 
 
+def prelog(expr, env):
+    """Oracle answers for the (pattern, text) pairs an expression can ask about, independently of which calls
+    the code actually makes: every string constant against every string constant and the transaction's texts."""
+    low = expr.lower()
+    if 'regex' not in low and 'extract' not in low:
+        return
+    try:
+        import ast as _ast
+        import warnings as _w
+        with _w.catch_warnings():
+            _w.simplefilter('ignore')
+            tree = _ast.parse(expr, mode='eval')
+    except Exception:  # noqa
+        return
+    consts = [n.value for n in _ast.walk(tree) if isinstance(n, _ast.Constant) and isinstance(n.value, str)][:8]
+    txn = env[0]
+    texts = consts + [txn.get('description', ''), txn.get('source') or '', txn.get('location') or '']
+    texts += [v for v in (txn.get('field') or {}).values() if isinstance(v, str)]
+    for p in consts:
+        for t in texts:
+            log_search(p, t)
+
+
 def run(expr, env):
+    prelog(expr, env)
     txn, variables, ds = env
     try:
         v = ep.evaluate_transaction(expr, txn, variables, ds)
@@ -141,13 +169,13 @@ def py_eval(expr, env):
     t = Txn()
     t.amount, t.description, t.date = txn.get('amount'), txn.get('description'), txn.get('date')
     t.source, t.location = txn.get('source') or '', txn.get('location') or ''
-    g = {'__builtins__': {}, 'len': len, 'sum': sum, 'any': any, 'all': all, 'next': next, 'min': min, 'max': max,
+    g = {'__builtins__': {}, 'True': True, 'False': False, 'None': None, 'len': len, 'sum': sum, 'any': any, 'all': all, 'next': next, 'min': min, 'max': max,
          'abs': abs, 'txn': t, 'amount': t.amount, 'description': t.description}
     for k, rows in ds.items():
         g[k] = [Row(r) for r in rows]
     g.update(variables)
     try:
-        v = eval(compile(expr, '<c04>', 'eval'), g, {})
+        v = eval(compile(expr, '<c04>', 'eval'), g)      # one namespace: := inside a generator binds where it is read
     except BaseException as e:  # noqa
         return {'err': type(e).__name__}
     if isinstance(v, list):
